@@ -550,7 +550,13 @@ def arithmetic_suite(chk, w, rule, nmax, order_pairs=((1, 1), (2, 1), (1, 2), (0
     T = w.T
     for (A, B) in order_pairs:
         clsA = w.spline_cls(A)
-        pb = lambda d: ("Spline<%s, %d>" % (T, B)) in d["params"][0]["type"]
+        pb = lambda d: ("Spline<%s, %d>" % (T, B)) in d["params"][0]["type"] and "&&" not in d["params"][0]["type"]
+        # overloads taking the right operand as an rvalue (none on the reference tree): evaluated like their const&
+        # siblings, and the moved-from argument must stay a valid object (C10: "a moved-from spline is a valid interval-free
+        # object"; C03: the result is the same function)
+        prv = lambda d: ("Spline<%s, %d>" % (T, B)) in d["params"][0]["type"] and "&&" in d["params"][0]["type"]
+        rvalue_overloads = [(nm_, f_) for nm_ in ("operator*", "operator+", "operator-", "operator+=", "operator-=")
+                            for f_ in w.I.find_methods(clsA, nm_, 1, prv)]
         fmul = w.method(clsA, "operator*", 1, pred=pb)
         fadd = w.method(clsA, "operator+", 1, pred=pb)
         fsub = w.method(clsA, "operator-", 1, pred=pb)
@@ -626,6 +632,28 @@ def arithmetic_suite(chk, w, rule, nmax, order_pairs=((1, 1), (2, 1), (1, 2), (0
                             o = w.call(f, a, [box(b)])
                             check(f, "%s: the target denotes the sum/difference afterwards; b unchanged" % nm, o, a, b,
                                   sa, sb, addspec, A, res=a, target_changes=True, lin=linspec(sg))
+                        for opname, f in rvalue_overloads:
+                            a, b = fresh()
+                            sa = snap(a)
+                            o = w.call(f, a, [box(b)])
+                            inplace = opname.endswith("=")
+                            if opname == "operator*":
+                                spec_ = lambda I, p: frozenset(
+                                    x for j in range(A + 1) if 0 <= p - j <= B for x in
+                                    (("c", "a", I, j), ("c", "b", I, p - j))) if (ina(I) and inb(I)) else frozenset()
+                                oo, lin_ = A + B, None
+                            else:
+                                spec_, oo = addspec, (A if inplace else max(A, B))
+                                lin_ = linspec(1 if "+" in opname else -1)
+                            # the argument may have been moved from: it must still be a valid spline (checked below), its
+                            # value is unspecified - compare the result only
+                            check(f, "%s(rvalue operand): the result is the same function as with a const operand" % opname,
+                                  o, a, b, sa, snap(b), spec_, oo, res=(a if inplace else None), target_changes=inplace,
+                                  lin=lin_)
+                            okb, whyb = valid_spline(w, b, n)
+                            cs.expect(f, "%s(rvalue operand): the moved-from argument is still a valid spline "
+                                         "(one coefficient array per interval of its support)" % opname, case, o,
+                                      okb or o.kind != "val", "(%s)" % whyb)
                         if fas is not None:
                             a, b = fresh()
                             sa, sb = snap(a), snap(b)
